@@ -107,6 +107,10 @@ theorem C14_cyclic_sound_partial (S : List Tx) (rootOrder : List Nat)
       (hashes (dependencySort S rootOrder)).idxOf e.1 < (hashes (dependencySort S rootOrder)).idxOf e.2 :=
   dependencySort_sound hnd hns hroot
 
+/-- The acyclicity hypothesis is decidable: `Kahn.acyclicB` (peel off, |S| times, the hashes without a remaining
+parent; acyclic iff nothing is left) decides it, so `decide` can discharge `Acyclic S` on concrete sets. -/
+theorem C14_acyclic_decidable (S : List Tx) : Acyclic S ↔ acyclicB S = true := (acyclicB_iff S).symm
+
 /-! ### Non-vacuity and behaviour on concrete graphs -/
 
 /-- diamond with a double edge, a conflicting pair of siblings (2 and 3 both spend outpoint (1,0)), an outside input
@@ -115,7 +119,12 @@ def exS : List Tx :=
   [⟨4, [(2, 0), (3, 0), (2, 1)]⟩, ⟨2, [(1, 0), (77, 3)]⟩, ⟨1, [(99, 0)]⟩, ⟨3, [(1, 0)]⟩, ⟨5, []⟩]
 
 example : (hashes exS).Nodup := by decide
-example : Acyclic exS := acyclic_of_rank id (by decide)
+example : Acyclic exS := acyclic_of_rank id (by decide)   -- by a ranking …
+example : Acyclic exS := by decide                         -- … or by the decision procedure
+example : ¬ Acyclic [⟨1, [(2, 0)]⟩, ⟨2, [(1, 0)]⟩, ⟨3, [(2, 1)]⟩, ⟨4, []⟩] := by decide
+-- all hypotheses of the theorems hold of a concrete non-trivial instance (orders are arbitrary permutations)
+example : (dependencySort exS.reverse [5, 3, 1, 2, 4]).Perm exS :=
+  C14_perm exS exS.reverse [5, 3, 1, 2, 4] (by decide) (by decide) (List.reverse_perm _) (by decide)
 example : edges exS = [(2, 4), (3, 4), (2, 4), (1, 2), (1, 3)] := by decide
 -- two different pairs of iteration orders, two different (both correct) results
 example : hashes (dependencySort exS [4, 2, 1, 3, 5]) = [1, 5, 2, 3, 4] := by decide
